@@ -248,7 +248,10 @@ func (r *renderer) args(d int, vs ...ssa.Value) []*Term {
 
 // loadAlloc renders the value held by a local: the single stored value when there is exactly one whole-value
 // store and no escaping use; otherwise a named local with the values stored in this function hung below it.
-func (r *renderer) loadAlloc(a *ssa.Alloc, d int) *Term {
+func (r *renderer) loadAlloc(a *ssa.Alloc, d int) *Term { return r.loadAllocField(a, d, -1) }
+
+// loadAllocField: as loadAlloc, but when onlyField >= 0 only stores to that field (and whole-value stores) count.
+func (r *renderer) loadAllocField(a *ssa.Alloc, d int, onlyField int) *Term {
 	vals, esc := storesTo(a)
 	if !esc && len(vals) == 1 {
 		return r.render(vals[0], d+1)
@@ -264,6 +267,9 @@ func (r *renderer) loadAlloc(a *ssa.Alloc, d int) *Term {
 			var sub ssa.Value
 			switch x := ref.(type) {
 			case *ssa.FieldAddr:
+				if onlyField >= 0 && x.Field != onlyField {
+					continue
+				}
 				sub = x
 			case *ssa.IndexAddr:
 				sub = x
@@ -319,7 +325,7 @@ func (r *renderer) render1(v ssa.Value, d int) *Term {
 		return &Term{Op: "extract", Name: fmt.Sprint(x.Index), Args: []*Term{tup}}
 	case *ssa.FieldAddr:
 		if a, ok := x.X.(*ssa.Alloc); ok {
-			return &Term{Op: "field", Name: fieldName(x.X.Type(), x.Field), Args: []*Term{r.loadAlloc(a, d+1)}}
+			return &Term{Op: "field", Name: fieldName(x.X.Type(), x.Field), Args: []*Term{r.loadAllocField(a, d+1, x.Field)}}
 		}
 		return &Term{Op: "field", Name: fieldName(x.X.Type(), x.Field), Args: r.args(d, x.X)}
 	case *ssa.Field:
